@@ -31,6 +31,7 @@ JsonOK(e) ==
   IF e.dir = "marshal"
   THEN IF e.nilmsg = 1 THEN e.st = "ok" /\ e.outnil = 1
        ELSE /\ e.st = "ok" /\ e.valid = 1
+            /\ e.stab = 1                                              \* earlier results are untouched by this call
             /\ e.rt1 = 1 /\ e.rt2 = 1                                  \* accepted by the adapter and by the runtime's own decoder, equal message
             /\ e.hasenum = 1 => e.enumasnum = e.enumnums
             /\ e.haszero = 1 => e.zeroemitted = e.emitzero
